@@ -513,9 +513,9 @@ func (t Table) Expect() (TableExpect, error) {
 				rs := []rune(vals[0])
 				from := c.Start - 1
 				if from < len(rs) {
-					to := from + c.Length
-					if to > len(rs) {
-						to = len(rs)
+					to := len(rs)
+					if c.Length < len(rs)-from { // (not from+Length: lengths up to MaxInt64 mean "the rest of the line")
+						to = from + c.Length
 					}
 					s := string(rs[from:to])
 					v = &s
@@ -745,7 +745,7 @@ func DrawTable(t *rapid.T) Table {
 			case k < 6:
 				c.Length = rapid.IntRange(1, 10).Draw(t, fmt.Sprintf("c%dlength", i))
 			case k < 8:
-				c.Length = rapid.SampledFrom([]int{4095, 4096, 4097, 8192, 70000}).Draw(t, fmt.Sprintf("c%dlengthBig", i))
+				c.Length = rapid.SampledFrom([]int{4095, 4096, 4097, 8192, 70000, 9223372036854775807, 9223372036854775806, 1 << 62}).Draw(t, fmt.Sprintf("c%dlengthBig", i))
 			default:
 				c.Length = rapid.IntRange(11, 40).Draw(t, fmt.Sprintf("c%dlengthMid", i))
 			}
